@@ -262,7 +262,8 @@ def _coq_ops(ops):
         out.append({'new': lambda: 'OpNew %s' % q(o[1]), 'src': lambda: 'OpAssignSrc %s' % q(o[1]), 'clear': lambda: 'OpClear %s' % q(o[1]),
                     'cloneid': lambda: 'OpCloneId %s %s' % (q(o[1]), q(o[2])), 'swap': lambda: 'OpSwap %s %s' % (q(o[1]), q(o[2])),
                     'clonenode': lambda: 'OpCloneNode %s %s' % (q(o[1]), q(o[2])), 'emitnew': lambda: 'OpEmitNew',
-                    'emitclone': lambda: 'OpEmitClone %s' % q(o[1]), 'emit': lambda: 'OpEmit %s' % q(o[1])}[k]())
+                    'emitclone': lambda: 'OpEmitClone %s' % q(o[1]), 'emit': lambda: 'OpEmit %s' % q(o[1]),
+                    'setalt': lambda: 'OpSetAlt %s %s' % (q(o[1]), q(o[2]))}[k]())
     return "[%s]" % "; ".join(out)
 
 
@@ -368,10 +369,42 @@ def generate_id_sites(api):
         if ce is None or not re.search(r"Group\s*\{\s*id,", ce) or not re.search(r"let\s+id\s*=\s*if\s+state\.parent_markers\.is_empty\(\)\s*\{\s*node\.element_id\(\)", ce):
             raise api.Unsupported("use_node::clip_element does not give its group the element id as expected")
         progs.append(('use_node::convert/clip-rect', _id_ops(api, blk, 'use_node clip-rect branch')))
+        # ---- text: parser/text.rs (the Text node), text/mod.rs + text/flatten.rs (its flattened group = second representation of the same node)
+        tsrc = _strip_comments(api.rd('crates/usvg/src/parser/text.rs'))
+        fsrc = _strip_comments(api.rd('crates/usvg/src/text/flatten.rs'))
+        lsrc = _strip_comments(api.rd('crates/usvg/src/text/layout.rs'))
+        msrc = _strip_comments(api.rd('crates/usvg/src/text/mod.rs'))
+        if not re.search(r"let\s+id\s*=\s*if\s+state\.parent_markers\.is_empty\(\)\s*\{\s*text_node\.element_id\(\)\.to_string\(\)\s*\}\s*else\s*\{\s*String::new\(\)\s*\}", tsrc) \
+                or not re.search(r"let\s+mut\s+text\s*=\s*Text\s*\{\s*id,", tsrc) or not re.search(r"flattened:\s*Box::new\(Group::empty\(\)\)", tsrc):
+            raise api.Unsupported("parser/text.rs: `Text { id, .., flattened: Box::new(Group::empty()) }` with the marker-aware id not found")
+        if len(re.findall(r"push\(Node::Text\(Box::new\(text\)\)\)", tsrc)) != 1:
+            raise api.Unsupported("parser/text.rs: the Text node is not pushed exactly once")
+        tprog = [('src', 'text'), ('new', 'flattened')]
+        fl = _fn_body(fsrc, r"fn\s+flatten\b[^{]*\{")
+        if fl is None:
+            raise api.Unsupported("text/flatten.rs: fn flatten not found")
+        idf = re.findall(r"\bid:\s*([^,}]+)", fl)
+        mg = re.search(r"let\s+mut\s+group\s*=\s*Group\s*\{\s*id:\s*text\.id\.clone\(\),\s*\.\.Group::empty\(\)", fl)
+        if not mg or [x.strip() for x in idf] != ['text.id.clone()']:
+            raise api.Unsupported("text/flatten.rs: flatten's group literal `Group { id: text.id.clone(), ..Group::empty() }` not found or other id fields: %r" % idf)
+        # every other node built for the flattened text has an empty id
+        for name, src2 in (('flatten.rs', fsrc), ('layout.rs', lsrc)):
+            for mm in re.finditer(r"\bPath::new\(\s*([^,]+),", src2):
+                if mm.group(1).strip() != 'String::new()':
+                    raise api.Unsupported("text/%s: a Path::new whose id is not String::new(): %s" % (name, mm.group(1).strip()))
+        others = [x.strip() for x in re.findall(r"\bid:\s*([^,}\)]+)[,}]", fsrc.replace(mg.group(0), ''))]
+        if any(x not in ('String::new()',) for x in others if not re.fullmatch(r"ID", x)):
+            raise api.Unsupported("text/flatten.rs: an id field that is neither empty nor the flattened group's: %r" % others)
+        tprog += [('cloneid', 'group', 'text')] + [('emitnew',)] * len(re.findall(r"\bPath::new\(\s*String::new\(\)", fsrc))
+        if not re.search(r"text\.flattened\s*=\s*Box::new\(group\);", msrc):
+            raise api.Unsupported("text/mod.rs: `text.flattened = Box::new(group)` not found")
+        tprog += [('setalt', 'text', 'group'), ('emit', 'text')]
+        progs.append(('text::convert', tprog))
         out = [api.HEADER, "From Coq Require Import String List.\nImport ListNotations.\nLocal Open Scope string_scope.\n",
                "(* node variables; OpAssignSrc x: x gets the id of the source element; OpEmit x: x is moved into the tree; OpEmitClone x: a copy is *)",
                "Inductive idop := OpNew (x : string) | OpAssignSrc (x : string) | OpClear (x : string) | OpCloneId (x y : string)",
-               "  | OpSwap (x y : string) | OpCloneNode (x y : string) | OpEmit (x : string) | OpEmitClone (x : string) | OpEmitNew.",
+               "  | OpSwap (x y : string) | OpCloneNode (x y : string) | OpEmit (x : string) | OpEmitClone (x : string) | OpEmitNew",
+               "  | OpSetAlt (x y : string).   (* y becomes the second representation stored inside x (Text::flattened): never written together with x *)",
                "Definition id_programs : list (string * list idop) :=\n  [%s].\n" % ";\n   ".join('("%s", %s)' % (n, _coq_ops(p)) for n, p in progs)]
         api.write_gen('IdPrograms.v', "\n".join(out))
         api.ok('tables', 'id_programs', programs=len(progs))
